@@ -72,7 +72,7 @@ def generate(rng, tier, idx):
             pts.append([round(rng.uniform(0.02, 0.98), 4) for _ in range(d)])
     samples = [rng.choice([1, 3, 5, 0])]
     if d == 2 and rng.random() < (0.5 if thorough else 0.12):
-        samples.append(2000)
+        samples.append(2000 + [0, 1, 337, 999, 500][idx % 5])     # not only round batch sizes
     elif d == 2:
         samples.append(40)
     return {'table': table, 'type': rng.choice(['center', 'direct', 'regular']),
